@@ -27,6 +27,9 @@ ASSUMPTIONS = [
     "validated on every session by comparing the final states of the three patterns",
     "a back-end gate call with negated first parameter is the inverse of the call (Gate.apply's dagger rule); "
     "validated per natively applied gate class and back end on every run",
+    "every program's measured parameters read that program's own RegRefs (false today when two programs of a session "
+    "use q[m].par of the same mode: SymPy caches the symbol by name - known finding measuredpar-shared-symbol; such "
+    "sessions are excluded from the trace correspondence, not from the oracle)",
     "shots = 1, hbar = 2; TDM programs, batching and the TensorFlow back end are outside the model",
     "theorem concat_compositional_partial assumes the hand-over gives the second segment the values it reads "
     "(false today for cross-segment feed-forward: known finding) and a non-bosonic back end (known finding)",
@@ -35,6 +38,10 @@ TRUSTED = ["modelled: BaseEngine._run / LocalEngine._run_program / BosonicBacken
            "Operation.apply / Measurement.apply / Gate.apply / Gate.decompose, Program.compile (simulator compilers), "
            "can_follow, bind_params; the numerical back ends are opaque (call trace recorded by instrumentation)"]
 
+# the Gaussian back end's post-selected homodyne is reproducible only to ~1e-7 (same program, same engine
+# type, two runs: state differs by up to 1e-7), so states are compared at 1e-5; the defects this oracle is
+# after move the state by 1e-2 .. 1
+STATE_TOL = 1e-5
 OPTS = {"fock": {"cutoff_dim": 5}, "gaussian": {}, "bosonic": {}}
 
 
@@ -128,6 +135,18 @@ def cross_deps(spec):
                     return True
             if er.kind_of(op["cls"]) == "meas":
                 measured |= set(op["regs"])
+    return False
+
+
+def shared_measured_symbol(spec):
+    """two different programs of the session use `q[m].par` of the same mode m"""
+    seen = {}
+    for j, seg in enumerate(spec["segs"]):
+        for op in seg:
+            for p in op.get("pars", []):
+                if isinstance(p, dict) and "m" in p:
+                    if seen.setdefault(p["m"], j) != j:
+                        return True
     return False
 
 
@@ -307,7 +326,11 @@ def one_session(ctx, sf, spec, reqs, pending, kinds=("list", "seq", "cat", "rese
             ctx.fail("run-arguments-mutated", f"{backend}: run changed the caller's " +
                      ("args" if not real["args_ok"] else "compile_options") + " dictionary", rp)
         # ---- (B) model
-        if ctx.proof_ok and modelled(spec):
+        if ctx.proof_ok and modelled(spec) and pat != "cat" and shared_measured_symbol(spec):
+            # known finding measuredpar-shared-symbol: the SymPy symbol q<m> of an earlier-built program points to
+            # the RegRef of the latest-built one; the model assumes every program reads its own RegRefs
+            ctx.tally("corr:skipped (shared measured-parameter symbol)")
+        elif ctx.proof_ok and modelled(spec):
             reqs.append(model_request(spec, script, real["outcomes"], concat=(pat == "cat")))
             pending.append((dict(case, pattern=pat), real))
     # ---- (C) the three patterns (+ reset, re-run) end in the same state
@@ -316,10 +339,13 @@ def one_session(ctx, sf, spec, reqs, pending, kinds=("list", "seq", "cat", "rese
         return
     ne = sum(1 for s in spec["segs"] if s)
     cross = cross_deps(spec)
+    shared = shared_measured_symbol(spec)
 
     def sig_for(a, b):
         if "cat" in (a, b) and cross:
             return "handover-samples"
+        if "cat" in (a, b) and shared:
+            return "measuredpar-shared-symbol"
         if "cat" in (a, b) and backend == "bosonic" and ne >= 2:
             return "bosonic-segment-reinit"
         if backend == "bosonic" and "reset" in (a, b) and ne >= 2:
@@ -339,12 +365,12 @@ def one_session(ctx, sf, spec, reqs, pending, kinds=("list", "seq", "cat", "rese
         if a["err"]:
             continue
         d = er.state_dist(a["state"], b["state"])
-        if not d < 1e-7:
+        if not d < STATE_TOL:
             ctx.fail(sig_for(ref, pat), f"{backend}: final state of pattern '{pat}' differs from '{ref}' by {d:.3g}", rp)
     # list vs seq must agree on every back end, whatever the defects above
     if "list" in results and "seq" in results and results["list"]["err"] is None and results["seq"]["err"] is None:
         d = er.state_dist(results["list"]["state"], results["seq"]["state"])
-        if not d < 1e-7:
+        if not d < STATE_TOL:
             ctx.fail(f"compositional:list-vs-seq:{backend}", f"{backend}: run([p..]) and successive runs differ by {d:.3g}", rp)
     # reset: engine attributes
     if "reset" in results and results["reset"]["err"] is None and "list" in results and results["list"]["err"] is None:
@@ -737,7 +763,7 @@ def run(ctx, sf):
     flush_heap_decompose(ctx, hr, hp)
     dagger_inverse_checks(ctx, sf)
     rng = ctx.rng
-    n = ctx.n(14, 150)
+    n = ctx.n(24, 220)
     for k in range(n):
         for backend in ("gaussian", "fock", "bosonic"):
             spec = gen_session(rng, backend, cross=(k % 10 == 9))
